@@ -18,13 +18,25 @@ func bootStates(sc *Scenario) func(x *Exec) error {
 		if err != nil {
 			return err
 		}
-		t0 := time.Now()
-		for pi, state := range sc.BootStates {
+		// submissions one second apart (Search orders by submit time), then one instant of recorded activity for all
+		// (so that BootAgeSec is exact), except for running-old, whose activity lies an hour back whatever BootAgeSec says
+		var built []*workflow.Plan
+		for pi := range sc.BootStates {
 			p := x.buildPlan(pi)
 			if _, err := tmp.Submit(x.Ctx, p); err != nil {
 				return err
 			}
 			x.registerPlan(pi, p)
+			built = append(built, p)
+			time.Sleep(time.Second)
+		}
+		tAct := time.Now()
+		for pi, state := range sc.BootStates {
+			t0 := tAct
+			if state == "running-old" {
+				t0 = t0.Add(-time.Hour)
+			}
+			p := built[pi]
 			objs := planObjects(p)
 			planPath := fmt.Sprintf("P%d", pi)
 			set := func(path string, st workflow.Status, ended bool) error {
@@ -64,7 +76,7 @@ func bootStates(sc *Scenario) func(x *Exec) error {
 			var err error
 			switch state {
 			case "notstarted":
-			case "running":
+			case "running", "running-old":
 				// block 0 half done: sequence 0 finished, sequence 1 in flight without a durable result
 				for _, step := range []struct {
 					p  string
@@ -151,9 +163,9 @@ func (monC11) AtEnd(x *Exec) {
 			x.Report(&Violation{Property: "C11", Rule: rule, Signature: fmt.Sprintf("%s/recovery=%v", state, !sc.NoRecovery),
 				Msg: fmt.Sprintf("%s (%s, last activity %ds before start-up, max %ds, recovery=%v): ", planPath, state, sc.BootAgeSec, maxAge, !sc.NoRecovery) + fmt.Sprintf(format, a...)})
 		}
-		aged := sc.BootAgeSec > maxAge
+		aged := sc.BootAgeSec > maxAge || state == "running-old"
 		switch {
-		case state != "running" || sc.NoRecovery:
+		case (state != "running" && state != "running-old") || sc.NoRecovery:
 			if len(invs) > 0 {
 				rep("plan-not-to-be-resumed-was-executed", "invoked %v", invs)
 			}
@@ -379,6 +391,30 @@ func FamilyBoot(tier string) []*Scenario {
 		}
 	}
 	rec(nil)
+	// several Running plans at once: live ones submitted before and after a stale one (start-up filters the list it
+	// iterates over), and more Running plans than the store has connections
+	three := PlanSpec{Blocks: []BlockSpec{{Seqs: okSeqs(3, 1), Conc: 1}}}
+	for _, v := range []struct {
+		name   string
+		states []string
+	}{
+		{"live+stale", []string{"running", "running-old"}},
+		{"stale+live", []string{"running-old", "running"}},
+		{"live+stale+live", []string{"running", "running-old", "running"}},
+		{"stale+stale+live", []string{"running-old", "running-old", "running"}},
+		{"live*3", []string{"running", "running", "running"}},
+		{"live*4", []string{"running", "running", "running", "running"}},
+	} {
+		var plans []PlanSpec
+		for range v.states {
+			if strings.HasPrefix(v.name, "live*") {
+				plans = append(plans, PlanSpec{Blocks: []BlockSpec{{Seqs: okSeqs(2, 1), Conc: 1}}}) // many plans: keep each small
+				continue
+			}
+			plans = append(plans, three)
+		}
+		out = append(out, &Scenario{Family: "F-boot", Name: "boot-many-" + v.name, Plans: plans, BootStates: v.states, BootAgeSec: 5, MaxLastUpdateSec: 600, MaxTicks: 4})
+	}
 	return out
 }
 
@@ -408,6 +444,10 @@ func init() {
 				b = 2
 			}
 			for _, sc := range FamilyBoot(tier) {
+				if strings.HasPrefix(sc.Name, "boot-many-live*") && tier != "thorough" {
+					items = append(items, explore("C11", sc, 1, false)) // three and four plans at once: every deviation costs
+					continue
+				}
 				items = append(items, explore("C11", sc, b, true))
 			}
 			// the Running plans found in a store after a real crash: every durable state of the crash scenarios, restarted
